@@ -173,7 +173,7 @@ pub proof fn lemma_on_disk_push(p: Seq<PieceT>, x: PieceT)
 {
     assert(p.push(x).drop_last() =~= p);
 }
-//@region foyer/src/hybrid/cache.rs :: impl~Pipe for HybridCachePipe/fn flush name=pipe_flush start=/let store = self\.store\.clone\(\);/ body=1 rules=de-async sub=@bytes as _@bytes@ sub=@tokio::time::sleep\(wait\)@verif_sleep(wait)@ sub=@(?s)let throttler = .*?;@let throttler = verif_throttler(&device);@
+//@region foyer/src/hybrid/cache.rs :: impl~Pipe for HybridCachePipe/fn flush name=pipe_flush start=/let store = / body=1 rules=de-async sub=@bytes as _@bytes@ sub=@tokio::time::sleep\(wait\)@verif_sleep(wait)@ sub=@(?s)let throttler = .*?;@let throttler = verif_throttler(&device);@
 //@head
 fn pipe_flush(store: &mut StoreT, pieces: Vec<PieceT>)
     ensures
@@ -200,7 +200,7 @@ fn pipe_flush(store: &mut StoreT, pieces: Vec<PieceT>)
 pub struct InnerT { pub policy: HybridCachePolicy, pub memory: MemT, pub storage: StoreT }
 pub struct HybridT { pub inner: InnerT }
 impl HybridT {
-//@region foyer/src/hybrid/cache.rs :: impl~^impl<K, V, S> HybridCache<K, V, S> where/fn insert name=hybrid_insert start=/let entry = self\.inner\.memory\.insert\(/ stmts=2
+//@region foyer/src/hybrid/cache.rs :: impl~^impl<K, V, S> HybridCache<K, V, S> where/fn insert name=hybrid_insert start=/let entry = self\.inner\.memory\.insert\b/ stmts=2
 //@head
     fn hybrid_insert(&mut self, key: u64, value: u64) -> (r: EntryT)
         ensures
@@ -290,7 +290,7 @@ fn get_disk_hit(store: &LoadStoreT, key: u64, ctx: &mut CtxT) -> (r: Result<Opti
         disk_hit_target(store.answer, r), // @label disk_hit_re_enters_memory_with_the_age_the_disk_tier_reported
         final(ctx).throttled.v == (old(ctx).throttled.v || store.answer matches Ok(Load::Throttled)), // @label throttled_load_sets_the_context_flag
 //@end
-//@region foyer/src/hybrid/cache.rs :: impl~^impl<K, V, S> HybridCache<K, V, S> where/fn get_or_fetch name=get_or_fetch_disk_hit start=/let load = store\.load\(&key\)\.await;/ stmts=3 rules=de-async,drop-tracing
+//@region foyer/src/hybrid/cache.rs :: impl~^impl<K, V, S> HybridCache<K, V, S> where/fn get_or_fetch name=get_or_fetch_disk_hit start=/let load = / stmts=3 rules=de-async,drop-tracing
 //@head
 fn get_or_fetch_disk_hit(store: &LoadStoreT, key: u64, ctx: &mut CtxT) -> (r: Result<Option<FetchTarget>>)
     ensures
@@ -318,7 +318,7 @@ impl RemStoreT {
 pub struct RemInnerT { pub memory: RemMemT, pub storage: RemStoreT }
 pub struct RemHybridT { pub inner: RemInnerT }
 impl RemHybridT {
-//@region foyer/src/hybrid/cache.rs :: impl~^impl<K, V, S> HybridCache<K, V, S> where/fn remove name=hybrid_remove start=/let now = Instant::now\(\);/ stmts=99 rules=drop-metrics,drop-tracing subopt=@try_cancel!\([^;]*\);@@
+//@region foyer/src/hybrid/cache.rs :: impl~^impl<K, V, S> HybridCache<K, V, S> where/fn remove name=hybrid_remove start=/let now = / stmts=99 rules=drop-metrics,drop-tracing subopt=@try_cancel!\([^;]*\);@@
 //@head
     fn hybrid_remove(&mut self, key: &u64)
         ensures
@@ -378,7 +378,7 @@ pub struct BuilderT { pub noop: bool }
 impl BuilderT { pub fn is_noop(&self) -> (b: bool) ensures b == self.noop { self.noop } }
 pub struct OptionsT { pub policy: HybridCachePolicy }
 pub struct BuildSelfT { pub options: OptionsT }
-//@region foyer/src/hybrid/builder.rs :: impl~HybridCacheBuilderPhaseStorage/fn build name=build_piped start=/let piped = match/ stmts=1 sub=@self\.options@this.options@
+//@region foyer/src/hybrid/builder.rs :: impl~HybridCacheBuilderPhaseStorage/fn build name=build_piped start=/let piped = / stmts=1 sub=@self\.options@this.options@
 //@head
 fn build_piped(builder: &BuilderT, this: &BuildSelfT) -> (r: bool)
     ensures r == (!builder.noop && this.options.policy == HybridCachePolicy::WriteOnEviction), // @label evictions_are_piped_to_disk_iff_write_on_eviction_over_a_real_store
